@@ -227,6 +227,14 @@ def _check_script_reader(ctx):
         lists = [k for k, v in env_pre.items() if _strip_raise(v) == T.lst([]) and k in appended]
         body_names = {n.id for n in ast.walk(loop) if isinstance(n, ast.Name)}
         streams = [k for k, v in env_pre.items() if T.is_op(_strip_raise(v), 'STREAM') and k in body_names]
+        BUF = None
+        if not streams:
+            # buffer form: the whole body is read once (checked against the declared length) and walked by position
+            bufs = [k for k, v in env_pre.items() if k in body_names and k not in (cnts[0], lens[0])
+                    and T.type_of(_strip_raise(v)) == 'bytes' and T.contains(_strip_raise(v), lambda x: x == D0)]
+            if len(bufs) == 1:
+                BUF = bufs[0]
+                streams = [BUF]
         if env_pre.get(cnts[0]) is None or _strip_raise(env_pre[cnts[0]]) != T.const(0) or len(lists) != 1 or len(streams) != 1 \
                 or lens[0] not in env_pre:
             raise AnalysisError('C19.READER', 'cannot identify the loop state of Script.parse (length=%s, count=%s, '
@@ -245,17 +253,24 @@ def _check_script_reader(ctx):
         for b in range(256):
             ev = Evaluator(p, 'ecdsa')
             rest = S('rest', type='bytes')
-            env = {params[0]: T.clsref(SCRIPT), STREAM: ev.new_stream(T.cat(T.const(bytes([b])), rest)),
-                   CNT: T.const(0), CMDS: T.lst([]), LEN: ls}
-            res, env2, facts2 = ev.eval_fragment('script.Script.parse', loop.body, env)
+            if BUF is None:
+                env = {params[0]: T.clsref(SCRIPT), STREAM: ev.new_stream(T.cat(T.const(bytes([b])), rest)),
+                       CNT: T.const(0), CMDS: T.lst([]), LEN: ls}
+                res, env2, facts2 = ev.eval_fragment('script.Script.parse', loop.body, env)
+            else:
+                # the buffer holds exactly the declared number of bytes (the prologue's read is checked below)
+                buf = T.cat(T.const(bytes([b])), rest)
+                env = {params[0]: T.clsref(SCRIPT), BUF: buf, CNT: T.const(0), CMDS: T.lst([]), LEN: ls}
+                res, env2, facts2 = ev.eval_fragment('script.Script.parse', loop.body, env,
+                                                     Facts().add(T.eq(T.len_(buf), ls)).add(T.lt(T.const(0), ls)))
             cm, cnt, st = env2.get(CMDS), env2.get(CNT), env2.get(STREAM)
             where = '%s:%d' % (fi.module.relpath, loop.lineno)
-            if not (T.tag(cm) == 'list' and len(cm[1]) == 1 and T.is_op(st, 'STREAM')):
+            if not (T.tag(cm) == 'list' and len(cm[1]) == 1 and (BUF is not None or T.is_op(st, 'STREAM'))):
                 ob.undecided('first byte 0x%02x: loop body does not append exactly one command (%s)'
                              % (b, T.show(cm, maxdepth=3)), where)
                 continue
             elem = _strip_raise(cm[1][0])
-            consumed = ev.stream_state(st)[1]
+            consumed = ev.stream_state(st)[1] if BUF is None else None
             if 1 <= b <= 75:
                 exp_elem = T.slice_(rest, T.const(0), T.const(b))
                 exp_used = T.const(1 + b)
@@ -275,10 +290,15 @@ def _check_script_reader(ctx):
                         if T.is_op(x_, 'LEN'):
                             lens[x_] = y_
             if lens:
-                cnt, consumed = T.subst(cnt, lens), T.subst(consumed, lens)
+                cnt = T.subst(cnt, lens)
+                consumed = T.subst(consumed, lens) if consumed is not None else None
             same_term(ob, elem, exp_elem, 'first byte 0x%02x: parsed command' % b, where)
-            same_term(oba, consumed, exp_used, 'first byte 0x%02x: bytes taken from the stream' % b, where)
-            same_term(oba, cnt, exp_used, 'first byte 0x%02x: increment of the consumed-byte counter' % b, where)
+            if consumed is not None:
+                same_term(oba, consumed, exp_used, 'first byte 0x%02x: bytes taken from the stream' % b, where)
+            same_term(oba, _strip_raise(cnt) if BUF is not None else cnt, exp_used,
+                      'first byte 0x%02x: %s' % (b, 'increment of the consumed-byte counter' if BUF is None else
+                                                 'the position advances by the bytes the command declares (a slice that '
+                                                 'runs past the end of the buffer is shorter than declared)'), where)
             if b in (0, 1, 2, 75, 76, 77, 78, 255):
                 leaf_terms = [x for x in (cm, cnt) if x is not None]
                 known = known_at(facts2, ())
@@ -289,15 +309,34 @@ def _check_script_reader(ctx):
                                 '%s:%d' % (p.functions[fq].module.relpath if fq in p.functions else fi.module.relpath, line),
                                 expected='guard LEN(data) == n that raises, or indexing-only use',
                                 found=T.show(r, maxdepth=3))
+        if BUF is not None:
+            # the one read of the body must be checked against the declared length (evaluated for a declared length of 5:
+            # marker byte below 0xfd, so that the read is one term and its length fact survives the joins)
+            evp = Evaluator(p, 'ecdsa')
+            rest = S('rest', type='bytes')
+            resp, envp, factsp = evp.eval_fragment('script.Script.parse', pre,
+                                                   {params[0]: T.clsref(SCRIPT), params[1]: evp.new_stream(T.cat(T.const(b'\x05'), rest))})
+            body5 = T.slice_(rest, T.const(0), T.const(5))
+            body_reads = [x for x in evp.reads if x[0] == body5]
+            if not body_reads or _strip_raise(envp.get(BUF)) != body5:
+                obr.undecided('the read that fills the script buffer was not recognised (declared length 5: %s)'
+                              % T.show(envp.get(BUF), maxdepth=4))
+            known0 = known_at(factsp, ())
+            for r, n, fq, line in body_reads:
+                obr.require(T.eq(T.len_(r), n) in known0, 'the script body is read without a length check (input that ends '
+                            'early gives a shorter buffer than declared)', '%s:%d' % (fi.module.relpath, line),
+                            expected='guard LEN(data) == n that raises', found=T.show(r, maxdepth=3))
         # opcode / first byte read on an unconstrained stream
         ev = Evaluator(p, 'ecdsa')
         D = S('D', type='bytes')
         env = {params[0]: T.clsref(SCRIPT), STREAM: ev.new_stream(D), CNT: T.const(0),
                CMDS: T.lst([]), LEN: ls}
-        res, env2, facts2 = ev.eval_fragment('script.Script.parse', loop.body[:3], env)
-        first = [x for x in ev.reads if x[0] == T.slice_(D, T.const(0), T.const(1))]
-        if not first:
-            obr.undecided('the opcode read of Script.parse was not recognised')
+        first = []
+        if BUF is None:
+            res, env2, facts2 = ev.eval_fragment('script.Script.parse', loop.body[:3], env)
+            first = [x for x in ev.reads if x[0] == T.slice_(D, T.const(0), T.const(1))]
+            if not first:
+                obr.undecided('the opcode read of Script.parse was not recognised')
         for r, n, fq, line in first:
             terms_ = [v for k, v in env2.items() if k != STREAM]
             obr.require(_read_ok(ev, r, n, terms_, known_at(facts2, ())),
